@@ -187,7 +187,78 @@ def roots(tier, seed):
                     B["cons"][0]["lb"] = [alpha.NAN]
                     B["cons"][1]["lb"] = [alpha.NAN]
                     pair("nan-vs-inf-limits", A, B)
+    out += cover_pairs(tier)
     return alpha.permute(out, seed)
+
+
+def cover_pairs(tier):
+    """The restatements that apply to a cross-feature case (mc/cover.py), applied to every such case: the 3-way
+    array in quick, the 3-way and 4-way arrays in thorough."""
+    from .. import cover
+    out = []
+    for A in cover.roots_for(tier):
+        if tier == "quick" and A["tag"]["part"] != "cross-feature":
+            continue
+        f = A["tag"]["cover"]
+        A = {k: v for k, v in A.items() if k not in ("explore", "monitors")}
+        con_fault = any(str(d[0]).startswith("con") for d in A.get("dev", []))
+
+        def pair(kind, B):
+            out.append({"pair": kind, "A": A, "B": B, "cover": True})
+
+        # (ii) bounds forms
+        if A.get("bounds") is not None and A["bounds"].get("form") == "Bounds":
+            B = copy.deepcopy(A)
+            B["bounds"]["form"] = "array"
+            pair("bounds-forms", B)
+        # (vii) NaN instead of infinite limits
+        if any(c.get("form", "nlc") == "nlc" and any(abs(v) == INF for v in list(c["lb"]) + list(c["ub"]))
+               for c in A["cons"]):
+            B = copy.deepcopy(A)
+            for c in B["cons"]:
+                if c.get("form", "nlc") == "nlc":
+                    c["lb"] = [alpha.NAN if v == -INF else v for v in c["lb"]]
+                    c["ub"] = [alpha.NAN if v == INF else v for v in c["ub"]]
+            pair("nan-vs-inf-limits", B)
+        # (iii) dict constraints (with args) vs NonlinearConstraint objects (value baked in)
+        if any(c.get("form") in ("dict_ineq", "dict_eq") for c in A["cons"]):
+            B = copy.deepcopy(A)
+            for c in B["cons"]:
+                if c.get("form") in ("dict_ineq", "dict_eq"):
+                    c["form"] = "nlc"
+                    if "args" in c:
+                        c["shift"] = c.pop("args")[0]
+            pair("dict-args-vs-nlc" if f["cons"] == "dict_eq_args" else "dict-vs-nlc", B)
+        # (iv) two-sided vs two one-sided
+        if f["cons"] == "ball_two" and not con_fault:
+            B = copy.deepcopy(A)
+            c = B["cons"][0]
+            B["cons"] = [dict(copy.deepcopy(c), lb=c["lb"], ub=[INF]), dict(copy.deepcopy(c), lb=[-INF], ub=c["ub"])]
+            pair("two-sided-vs-split:nonlinear", B)
+        if f["cons"] == "lin_mixed":
+            B = copy.deepcopy(A)
+            c = B["cons"][0]
+            B["cons"] = [{"kind": "lin", "A": [c["A"][0]], "lb": [c["lb"][0]], "ub": [c["ub"][0]]},
+                         {"kind": "lin", "A": [c["A"][1]], "lb": [-INF], "ub": [c["ub"][1]]},
+                         {"kind": "lin", "A": [c["A"][1]], "lb": [c["lb"][1]], "ub": [INF]}]
+            pair("two-sided-vs-split:linear", B)
+        # (v) regrouping
+        if f["cons"] == "two_nl" and not con_fault:
+            B = copy.deepcopy(A)
+            B["cons"] = [{"kind": "nl", "form": "nlc", "funs": A["cons"][0]["funs"] + A["cons"][1]["funs"],
+                          "lb": [-INF, -INF], "ub": A["cons"][0]["ub"] + A["cons"][1]["ub"]}]
+            pair("regroup:nonlinear", B)
+        # (vi) scaling, (i) fixed variables
+        if f["scale"] and f["box"] in ("wide", "big"):
+            pair("scale-vs-rescaled", rescale_case(A))
+        if f["box"] == "fixwide" and A["n"] >= 2:
+            Bf = reduce_case(A, [0])
+            pair("fixed-vs-reduced:scaled" if f["scale"] else "fixed-vs-reduced", Bf)
+            if f["scale"]:
+                Br = rescale_case(Bf)
+                Br["xmap"] = {"kind": "chain", "maps": [Br["xmap"], Bf["xmap"]]}
+                pair("fixed+scale-vs-reduced+rescaled", Br)
+    return out
 
 
 def canon_points(rec):
@@ -284,7 +355,8 @@ def run_case(root):
                 add("result-differs", f"x={xa.tolist()} fun={a.fun} vs x={xb.tolist()} fun={b.fun}")
             else:
                 tol = 100 * EPS * max(1.0, abs(float(a.maxcv))) * (A["n"] + 2) * 8
-                if not (abs(float(a.maxcv) - float(b.maxcv)) <= tol or (a.maxcv != a.maxcv and b.maxcv != b.maxcv)):
+                if not (float(a.maxcv) == float(b.maxcv) or abs(float(a.maxcv) - float(b.maxcv)) <= tol
+                        or (a.maxcv != a.maxcv and b.maxcv != b.maxcv)):
                     add("maxcv-differs", f"maxcv {a.maxcv} vs {b.maxcv}")
     for rec in (ra, rb):
         v = residual_check(rec, stats)
